@@ -283,6 +283,32 @@ def check(fx, rep, tier):
     if rep.anchor("R03.4", fk is not None, "VMThread::fork"):
         inits = [1 for b, n, ps, kind in gws if b["def"] == fk["def"] and kind == "init"]
         rep.oblige(bool(inits), "R03.4", "fork-inherits-gas", F.loc(fk["span"]), "VMThread::fork does not construct the child with the parent's gas counter (e.g. it goes through a constructor that resets it): every forked thread starts with a fresh gas budget", sample={"rule": "R03.4", "fork_builds_child_with": "self.gas_usage" if inits else "constructor"})
+    # the forked thread has executed the forking instruction too: either gas is charged before an instruction executes (then the
+    # copy made by fork() includes it) or the function that creates the child charges it that instruction's cost
+    charge_sites = [(n, ps) for n, ps in F.calls(ml["hir"]["value"]) if (F.callee_def(n) or "").endswith("VMThread::consume_gas")]
+    en, eps = vm.exec_call
+    charged_before = any(T._span_key(n["span"])[2] <= T._span_key(en["span"])[1] for n, ps in charge_sites)
+    fork_charged = False
+    for b in fx.fn_bodies():
+        if not b.get("hir"):
+            continue
+        forks = [c for c, _ in F.calls(b["hir"]["value"]) if (F.callee_def(c) or "").endswith("VMThread::fork")]
+        if not forks or b.get("impl_self") == VT:
+            continue
+        for c, cps in F.calls(b["hir"]["value"]):
+            if (F.callee_def(c) or "").endswith("VMThread::consume_gas") and c["args"]:
+                at = T.term(c["args"][0], T.env_at(cps, c, T.mutated_locals(b["hir"]["value"])), T.mutated_locals(b["hir"]["value"]))
+                on_child = F.local_of(F.strip(c["recv"])) is not None
+                if on_child and any(st[0] == "call" and isinstance(st[1], str) and F.strip_generics(st[1]).endswith("min_gas_cost") for st in T.subterms(at)):
+                    fork_charged = True
+    rep.oblige(
+        charged_before or fork_charged,
+        "R03.4",
+        "fork-charged-for-forking-instruction",
+        F.loc(ml["span"]),
+        "the current thread is charged for an instruction only after it has executed and the thread forked during that instruction is not charged for it: every generation of forked threads under-counts its gas by that instruction's cost and can run past the gas limit",
+        sample={"rule": "R03.4", "charged_before_execute": charged_before, "child_charged_at_fork": fork_charged},
+    )
     # Ok arm charges min_gas_cost
     charged = False
     for n, ps in F.calls(ml["hir"]["value"]):
